@@ -651,20 +651,42 @@ class HarnessDisagreement(Exception):
     """predict() and minitex disagree: the harness itself is wrong."""
 
 
+def release(tex, doc):
+    """Harness hygiene, after the observations were taken: plasTeX tokens are str
+    subclasses that point to their document but are invisible to the cycle collector,
+    so a processed document (with all its per-context classes, ~0.4 MB) is never
+    freed.  Emptying the containers lets reference counting free everything."""
+    try:
+        ctx = doc.context
+        for c in list(ctx.contexts):
+            dict.clear(c)
+            c.__dict__.clear()
+        ctx.__dict__.clear()
+        while doc.childNodes:
+            doc.pop()
+        doc.__dict__.clear()
+        tex.__dict__.clear()
+    except Exception:
+        pass
+
+
 def run_real(src, probes):
     from plasTeX.TeX import TeX
     tex = TeX()
     tex.disableLogging()
     doc = tex.ownerDocument
     d0 = len(doc.context.contexts)
-    tex.input(src)
-    out = tex.parse()
-    text = "".join(out.textContent.split())
-    counters = {}
-    for p in probes:
-        c = doc.context.counters.get("pq" + p)
-        counters[p] = None if c is None else int(c.value)
-    return text, counters, len(doc.context.contexts) - d0
+    try:
+        tex.input(src)
+        out = tex.parse()
+        text = "".join(out.textContent.split())
+        counters = {}
+        for p in probes:
+            c = doc.context.counters.get("pq" + p)
+            counters[p] = None if c is None else int(c.value)
+        return text, counters, len(doc.context.contexts) - d0
+    finally:
+        release(tex, doc)
 
 
 def walk(nodes, fn, owner=None, skipped=False):
@@ -905,17 +927,9 @@ def reduce_case(case, key, budget=50):
 
 
 def check(case):
-    r = evaluate(case)
-    if r.ok or r.excluded or "body" not in case or r.key.startswith("raise:"):
-        return r
-    small = reduce_case(case, r.key)
-    r2 = evaluate(small)
-    if not r2.ok and not r2.excluded and r2.key == r.key:
-        r.detail["reduced_src"] = render(small)
-        for k in ("expected_text", "observed_text", "expected_probe_counters", "observed_probe_counters"):
-            if k in r2.detail:
-                r.detail["reduced_" + k] = r2.detail[k]
-    return r
+    """Verdict of one case.  (reduce_case() is a development aid: it is not run here,
+    the runner's shrink pass minimises the replay file of every new bucket.)"""
+    return evaluate(case)
 
 
 def raw_class(src):
